@@ -405,6 +405,9 @@ func (cc *connectUnaryClientConn) validateResponse(response *http.Response) *Err
 			reader:          response.Body,
 			compressionPool: cc.compressionPools.Get(compression),
 			bufferPool:      cc.bufferPool,
+			// The read limit bounds what a peer can make us buffer: an error body
+			// is no exception.
+			readMaxBytes: cc.unmarshaler.readMaxBytes,
 		}
 		var serverErr Error
 		// A body in an encoding we don't know (an intermediary's error page,
